@@ -20,6 +20,7 @@ def atomToJ : Atom → J
   | .int i => .int i
   | .str n => .arr [.str "s", .int n]
   | .opaque i => .arr [.str "q", .int i]
+  | .tup ids => .arr [.str "t", .arr (ids.map fun (i : Nat) => J.int (Int.ofNat i))]
 
 def kindToJ : Kind → J
   | .dict => .str "d"
@@ -108,6 +109,7 @@ partial def resolveVE (cx : Ctx) (used : Used) : J → VE × Used
   | .int i => (.atom (.int i), used)
   | .arr [.str "s", .int n] => (.atom (.str n.natAbs), used)
   | .arr [.str "q"] => (.fresh, used)
+  | .arr [.str "T", .int n] => (.freshTuple (n.natAbs % 4), used)
   | .arr [.str "I"] => (.node (.obj clsInferred) false false false [], used)
   | .arr [.str "R"] => (.mkRef none, used)
   | .arr [.str "R", .int n] =>
@@ -191,6 +193,16 @@ def holdsInferred (cont : Tree) (k : Key) : Bool :=
   | some (.node m _) => m.kind == .obj clsInferred
   | _ => false
 
+/-- what survives `pg.from_json(pg.to_json(v))`: plain values and containers with default flags. -/
+partial def sanitizeVE : VE → VE
+  | .atom (.int i) => .atom (.int i)
+  | .atom (.str n) => .atom (.str n)
+  | .node kind _ _ _ items =>
+    (match kind with
+     | .obj c => if c < 2 then VE.node kind false true false (items.map fun kv => (kv.1, sanitizeVE kv.2)) else .atom .none
+     | _ => VE.node kind false true false (items.map fun kv => (kv.1, sanitizeVE kv.2)))
+  | _ => .atom .none
+
 def resolveOp (f : Forest) (j : J) : Option Op :=
   let nodes := f.nodes
   let name := (j.getStr? "op").getD ""
@@ -201,11 +213,12 @@ def resolveOp (f : Forest) (j : J) : Option Op :=
     | "lsort" | "lreverse" | "limul" | "lslice" | "ldelslice" => "l"
     | "oset" => "o"
     | _ => "*"
-  let target := if name == "new" then none else pickOfKind nodes fam tn
+  let target := if name == "new" || name == "newjson" then none else pickOfKind nodes fam tn
   let cx : Ctx := { f := f, nodes := nodes, target := target, unsafeRefs := (j.getBool? "unsafe").getD false }
   let v := fun (field : String) => (resolveVE cx [] (j.getD field .null)).1
   let vs := fun (field : String) => (resolveVEs cx [] ((j.getArr? field).getD [])).1
   if name == "new" then some (.new (v "v")) else
+  if name == "newjson" then some (.new (sanitizeVE (v "v"))) else
   match target with
   | none => none
   | some tt =>
